@@ -31,6 +31,30 @@ macro_rules! cdr {
     }};
 }
 
+/// True if every part of the cell is data the reader could have produced.
+fn is_datum(cell: &Cell) -> bool {
+    let mut rest = cell;
+    loop {
+        match rest {
+            Cell::Pair(car, cdr) => {
+                if !is_datum(car) {
+                    return false;
+                }
+                rest = cdr;
+            }
+            Cell::Vector(vector) => return vector.iter().all(is_datum),
+            Cell::Continuation
+            | Cell::Macro
+            | Cell::Procedure(_)
+            | Cell::Undefined
+            | Cell::Void => {
+                return false;
+            }
+            _ => return true,
+        }
+    }
+}
+
 impl Vm {
     /// Compile Runnable
     ///
@@ -690,6 +714,11 @@ impl Vm {
     /// `lambda` - The lambda to emit bytecode to
     /// `expr` - The expression to quote.
     pub fn compile_quote(&mut self, lambda: &mut Lambda, expr: &Cell) -> Result<(), Error> {
+        // Procedures, macros, continuations and the other non-data cells that a result
+        // may contain have no representation as a constant.
+        if !is_datum(expr) {
+            return Err(InvalidSyntax(format!("{:#} is not a datum", expr)));
+        }
         lambda.emit(OpCode::MovImmediate);
         lambda.emit(self.heap.maybe_put_cell(expr));
         lambda.emit(VCell::Acc);
@@ -766,6 +795,9 @@ impl Vm {
             lambda.emit(OpCode::PushAcc);
             rest = rest.cdr().unwrap();
             count += 1;
+        }
+        if !is_datum(rest) {
+            return Err(InvalidSyntax(format!("{:#} is not a datum", rest)));
         }
         lambda.emit(OpCode::PushImmediate);
         lambda.emit(self.heap.maybe_put_cell(rest));
